@@ -22,6 +22,9 @@ Lin2(loglen) == [width |-> 2, log_len |-> loglen,
                  cols |-> << <<Term(1, <<C(1)>>)>>, <<Term(1, <<C(0)>>), Term(1, <<C(1)>>)>> >>,
                  periodic |-> <<>>, init |-> <<1, 1>>, exemptions |-> 1,
                  asserts |-> <<Single(0, 0), Single(1, 2 ^ loglen - 1)>>, aux |-> <<>>, meta |-> <<>>]
+\* opaque trace metadata longer than two field elements (non-zero bytes)
+MetaBytes(n) == [i \in 1..n |-> (i * 37) % 251 + 1]
+LinM(loglen, n) == [Lin2(loglen) EXCEPT !.meta = MetaBytes(n)]
 \* next0 = c0*c1 + 3 ; next1 = c1 + 1                 (degree 2)
 Mul2(loglen, meta) == [width |-> 2, log_len |-> loglen,
                  cols |-> << <<Term(1, <<C(0), C(1)>>), Term(3, <<>>)>>, <<Term(1, <<C(1)>>), Term(1, <<>>)>> >>,
@@ -48,12 +51,12 @@ Opt(q, b, g, e, f, r, cb, db, p, h) ==
 Case(desc, opts, field, hash, cc) == [desc |-> desc, opts |-> opts, field |-> field, hash |-> hash, cc |-> cc]
 
 QuickCases == <<
-  Case(Lin2(4),        Opt(16, 8, 0, 1, 4, 7, 0, 0, 1, 1),  "f64",  "blake3_256", 1),
+  Case(LinM(4, 20),    Opt(16, 8, 0, 1, 4, 7, 0, 0, 1, 1),  "f64",  "blake3_256", 1),
   Case(Aux2(3, 2, 2),  Opt(14, 16, 0, 2, 4, 3, 0, 1, 1, 1), "f64",  "rp64_256", 1),
   Case(Quart(5),       Opt(10, 8, 0, 3, 2, 0, 2, 0, 1, 1),  "f62",  "rp62_248", 3)
 >>
 MoreCases == <<
-  Case(Mul2(4, <<7, 8, 9>>), Opt(14, 8, 4, 2, 2, 3, 1, 2, 1, 1), "f128", "sha3_256", 1),
+  Case(Mul2(4, MetaBytes(35)), Opt(14, 8, 4, 2, 2, 3, 1, 2, 1, 1), "f128", "sha3_256", 1),
   Case(Aux2(4, 2, 2),  Opt(14, 8, 3, 1, 8, 1, 0, 0, 2, 4),  "f64",  "rpjive64_256", 1),
   Case(Mul2(5, <<>>),  Opt(20, 4, 0, 1, 2, 1, 0, 0, 1, 1),  "f64",  "blake3_192", 1),
   Case(Lin2(4),        Opt(20, 8, 0, 1, 4, 7, 1, 1, 1, 1),  "f128", "blake3_256", 1),
